@@ -483,6 +483,12 @@ class Interp:
         it = self.eval(s.iter, fr)
         if isinstance(it, SymRange):
             return self.exec_symbolic_loop(s, fr, it)
+        from .values import SymList
+        if isinstance(it, SymList):
+            # iteration over a list of symbolic length with a closed-form entry: index loop binding the element
+            if it.items or it.entry is None:
+                raise OutOfReach("iteration over an abstract list without a closed form")
+            return self.exec_symbolic_loop(s, fr, SymRange(0, it.prefix_len), elem=it.entry)
         if isinstance(it, (list, tuple, range, dict)) or hasattr(it, "__iter__"):
             broke = False
             for x in it:
@@ -522,7 +528,7 @@ class Interp:
             except _Continue:
                 continue
 
-    def exec_symbolic_loop(self, s, fr, rng, rule=None):
+    def exec_symbolic_loop(self, s, fr, rng, rule=None, elem=None):
         qual, ordinal = self._loop_ordinal(s, fr)
         rule = rule or self.loop_rules.get((qual, ordinal))
         if rule is None:
@@ -577,7 +583,7 @@ class Interp:
         rule.havoc(self, fr, k)
         c.ghost["phase"] = "generic"
         if rng is not None:
-            self.assign(s.target, k, fr)
+            self.assign(s.target, elem(k) if elem is not None else k, fr)
         else:
             cond = self.eval(s.test, fr)
             c.assume(cond)
